@@ -1,0 +1,24 @@
+// Copyright (c) 2019,CAOHONGJU All rights reserved.
+// Use of this source code is governed by a MIT-style
+// license that can be found in the LICENSE file.
+
+//go:build verif
+// +build verif
+
+package config
+
+// VerifSet 仅供仿真使用：直接设置全局配置项（不读取配置文件）。
+func VerifSet(auth, cacheGop bool, hlsFragment int, hlsPath string) {
+	globalC = &config{
+		ListenAddr:  ":554",
+		Auth:        auth,
+		CacheGop:    cacheGop,
+		HlsFragment: hlsFragment,
+		HlsPath:     hlsPath,
+	}
+}
+
+// VerifClear 仅供仿真使用：恢复为未初始化的默认配置。
+func VerifClear() {
+	globalC = nil
+}
